@@ -5,6 +5,7 @@ package c06
 //   - a harness BlockReferenceResolver (absolute block ids, oldest-first
 //     release, one epoch and one hash seed per block, like volatileBlockList),
 //   - a byte-slice blockdevice.BlockDevice for the persistent record array,
+//     which can be told to fail one chosen ReadAt/WriteAt call,
 //   - a pass-through LocationRecordArray decorator that observes slot
 //     reads/writes (it never alters them),
 //   - the Prometheus collectors of the map (discard reports).
@@ -35,6 +36,18 @@ package c06
 //	(6) every call terminates: the decorator only enforces a generous
 //	    slot-access budget (a hang guard, far above anything the attempt
 //	    limits allow) and that only slots inside the table are touched.
+//	(7) device faults (block device only; one failing ReadAt/WriteAt per
+//	    operation, see faultPlan, putF, getF): a device error is never
+//	    taken for a free slot - a Put that returns nil obeys (2) and (3)
+//	    unchanged; a Put that returns an error (only allowed when a device
+//	    call failed) leaves the stored key at its previous or at the new
+//	    result and obeys (3) with ONE more key allowed to fall back (the
+//	    record the unchanged code had displaced and was carrying to its
+//	    next slot); a Get with a failed read answers with an error or
+//	    soundly as in (1), and changes nothing.
+//	(8) concurrent lookups (callers hold a read lock only): every answer
+//	    given while 4..16 goroutines look keys up at once equals the
+//	    sequential answer (see concurrentLookups).
 //
 // NOT asserted (the property does not state them; they are how the unchanged
 // code happens to work and a refactoring may change them freely): the number
